@@ -56,7 +56,7 @@ func stakeNewValidator(ctx sdk.Ctx, msg types.MsgStake, k keeper.Keeper) sdk.Res
 		}
 	}
 	// create validator object using the message fields
-	validator := types.NewValidator(sdk.Address(msg.PubKey.Address()), msg.PubKey, msg.Value)
+	validator := types.NewValidator(sdk.Address(msg.PubKey.Address()), msg.PubKey, sdk.ZeroInt()) // the stake is added by StakeValidator below
 	// Set Validator Status
 	validator.Status = sdk.Unstaked
 	// check if they can stake
